@@ -25,6 +25,11 @@ def raw_rows():
 
 def _env(c):
     from periodictable import activation
+    if c.get("late"):
+        # an environment object that is re-used: built for other conditions, then its attributes are assigned
+        env = activation.ActivationEnvironment(fluence=1e5, Cd_ratio=(70.0 if c["cd"] < 1 else 0.0), fast_ratio=(0.0 if c["fast_ratio"] else 50.0))
+        env.fluence, env.Cd_ratio, env.fast_ratio = c["fluence"], c["cd"], c["fast_ratio"]
+        return env
     return activation.ActivationEnvironment(fluence=c["fluence"], Cd_ratio=c["cd"], fast_ratio=c["fast_ratio"])
 
 
@@ -46,7 +51,10 @@ def observe(arg):
     for t in arg["items"]:
         try:
             k = t["kind"]
-            if k == "act":
+            if k == "init_first":
+                # the first touch of activation data in this interpreter is an explicit init of the public table
+                activation.init(P.elements)
+            elif k == "act":
                 Z, A = t["iso"]
                 iso = P.elements[Z][A]
                 c = t["cond"]
@@ -150,6 +158,13 @@ def _decay(t):
     results = {}
     for li, rests in enumerate(t["restlists"]):
         s = activation.Sample(f, c["mass"])
+        if t.get("reuse"):
+            # the Sample object has a history: activated under other conditions and queried, then activated again
+            s.calculate_activation(_env(c), exposure=c["exposure"] * t["reuse"], rest_times=rests)
+            try:
+                s.decay_time(total0 * 0.5 if total0 > 0 else 1.0)
+            except Exception:
+                pass
         s.calculate_activation(_env(c), exposure=c["exposure"], rest_times=rests)
         for ti, frac in enumerate(t["targets"]):
             target = total0 * frac
